@@ -116,7 +116,7 @@ TTimeout == IsEv("timeout") /\ Step(Timeout(Ev.n))
 TVoteReq ==
     /\ (IsEv("voteReq") \/ IsEv("timeoutNowReq"))
     /\ \E m \in rpcs : m.kind = (IF IsEv("voteReq") THEN "vote" ELSE "timeoutNow") /\ m.phase = 0 /\ m.from = Ev.from /\ m.to = Ev.n /\ m.term = Ev.term
-          /\ Step(RpcReq(m))
+          /\ Step(RpcReqX(m, Has("dropped")))
           /\ (Has("result") => (ev'.result = Ev.result /\ ev'.respTerm = Ev.respTerm))
 
 TVoteResp ==
@@ -125,7 +125,7 @@ TVoteResp ==
        ELSE \E m \in rpcs : m.kind = (IF IsEv("voteResp") THEN "vote" ELSE "timeoutNow") /\ m.phase = 1 /\ m.from = Ev.n /\ m.to = Ev.from /\ m.term = Ev.term
               /\ Step(RpcResp(m))
 
-TReplSend == IsEv("replSend") /\ ~Has("skipped") /\ Step(ReplSend(Ev.i, Ev.j))
+TReplSend == IsEv("replSend") /\ ~Has("skipped") /\ Step(ReplSendX(Ev.i, Ev.j, Has("dialFail")))
                 /\ (Has("req") => (Has("req") /\ "req" \in DOMAIN ev' /\ ev'.req = Ev.req))
 
 TAppendReq ==
